@@ -452,6 +452,19 @@ func handleMultipart(req *protocol.Request) error {
 	if len(req.MultipartFiles()) == 0 && len(req.MultipartFields()) == 0 {
 		return nil
 	}
+	if req.HasMultipartForm() {
+		// The form was assembled when this request was written before (the client sends a request again
+		// after a stale pooled connection or a redirect). The readers of its fields and files are used
+		// up by then: assembling it again would send every such part empty. Only parts given as a
+		// file path can be read a second time.
+		fromReaders := len(req.MultipartFields()) > 0
+		for _, f := range req.MultipartFiles() {
+			fromReaders = fromReaders || f.Reader != nil
+		}
+		if fromReaders {
+			return nil
+		}
+	}
 	var err error
 	bodyBuffer := &bytes.Buffer{}
 	w := multipart.NewWriter(bodyBuffer)
